@@ -282,6 +282,7 @@ pub(crate) struct Sim {
 }
 
 thread_local! {
+    static EPOCH: Cell<u64> = const { Cell::new(0) };
     pub(crate) static SIM: RefCell<Option<Sim>> = const { RefCell::new(None) };
     static ACTIVE: Cell<bool> = const { Cell::new(false) };
     static FIRST_PANIC: RefCell<Option<(String, String)>> = const { RefCell::new(None) };
@@ -658,6 +659,7 @@ pub fn run_sim<R: Send + 'static>(
     f: impl FnOnce() -> R + Send + 'static,
 ) -> (SimOutcome, Option<R>) {
     assert!(!in_sim(), "nested simulation");
+    EPOCH.with(|e| e.set(e.get() + 1));
     let main_stack = cfg.main_stack;
     SIM.with(|s| *s.borrow_mut() = Some(Sim::new(cfg)));
     FIRST_PANIC.with(|p| *p.borrow_mut() = None);
@@ -745,4 +747,9 @@ pub fn run_sim<R: Send + 'static>(
 
 pub fn with_sim_pub<R>(f: impl FnOnce(&SimConfig) -> R) -> R {
     with_sim(|s| f(&s.cfg))
+}
+
+/// Number of simulations started on this OS thread so far (facades use it to drop per-run state).
+pub fn run_epoch() -> u64 {
+    EPOCH.with(|e| e.get())
 }
